@@ -1,10 +1,106 @@
-(** Property C23 (placeholder while the proofs are being written) *)
-From Coq Require Import ZArith List String.
-From LV Require Import Base.Conc Base.Events Model.FcKernel.
-Import ListNotations.
-Local Open Scope Z_scope.
+(** Property C23 — "In the flat-combining kernel, every published request is executed exactly once, by one
+    combiner at a time, and its requester observes the response only after execution.  Publication records
+    left by exited threads are reclaimed and not accessed afterwards."
 
-Example C23_model_runs :
-  let r := FcKernel.run_case [1; 1; 400] [[[1;0]]; [[2;1]]] [0;1;0;1;1;0;0;1]%nat 2000 in
-  snd r = true /\ List.length (filter (is_cli "exec") (map snd (fst r))) = 2%nat.
-Proof. vm_compute. split; reflexivity. Qed.
+    Model: LV.Model.FcKernel (cds::algo::flat_combining::kernel, one atomic access per step) driving the
+    counting container of harness/C23 (the cnt_ definitions of LV.Model.FcKernel).  Only statements here; the proofs are in
+    LV.Proofs.FcKernelProofs / LV.Proofs.FcContainers.
+
+    Quantifiers of every theorem: any number of threads, any client programs made of requests (through
+    kernel::combine or kernel::batch_combine) and thread exits, EVERY schedule ([Conc.reach] = every sequence
+    of thread choices), any loop fuel, any compact-factor mask and any combine pass count (minimums included).
+
+    Trace events: "lock"/"unlock" = combiner lock acquired / about to be released; "inv op rid" = request
+    published by its thread; "exec tid op rid n" = the container executes the request of thread tid (n = value of
+    the request's execution counter afterwards); "ret n" = the requester has seen req_Response and read n;
+    "free" = compact_list freed a record; "lost" (model only) = release_record of a record whose request word is
+    not req_Response, i.e. the containers' compiled-out `assert( pRec->is_done())` would fail; "uaf" (model only) =
+    an atomic access to a freed record. *)
+From Coq Require Import ZArith List String Bool.
+From LV Require Import Base.Conc Base.Events Base.Lin Model.FcKernel Proofs.FcKernelProofs Proofs.FcContainers.
+Import ListNotations.
+Local Open Scope string_scope.
+
+(** *** one combiner at a time.
+    [mon None tr = Some h]: in [tr], "lock" and "unlock" alternate starting with "lock", every "unlock" is by
+    the thread that locked, and every "exec" and every "free" is emitted by the current lock holder. *)
+Theorem C23_fc_single_combiner :
+  forall (chk : bool) (fuel mask npass : nat) (ths : list (list cop)) c,
+    ops_ok cnt_okop ths -> Conc.reach (cnt_init_cfg chk fuel mask npass ths) c ->
+    exists h, mon None (Conc.trace c) = Some h.
+Proof. exact fc_single_combiner. Qed.
+Print Assumptions C23_fc_single_combiner.
+
+(** *** exactly once.
+    [lp_valid CountSpec (cnt_annot tr)] says: reading "inv" as an invocation, "exec tid .." as THE execution point of
+    thread tid's outstanding request and "ret n" as the response, every thread goes
+    inv -> exec -> ret -> inv -> ..., (so an "exec" happens only for a request that is published and not yet
+    executed: never twice, never before publication, never after the response; and a "ret" only after the
+    "exec"), and the value n returned is the value the execution produced (with distinct request ids: 1).
+
+    The full statement: *)
+Definition C23_fc_exactly_once_mutex_statement : Prop :=
+  forall (fuel mask npass : nat) (ths : list (list cop)) c,
+    1 <= npass -> ops_ok cnt_okop ths -> Conc.reach (cnt_init_cfg true fuel mask npass ths) c ->
+    lp_valid CountSpec (cnt_annot (Conc.trace c)).
+
+(** Proved: the statement for every trace in which no record is released unanswered ("lost").  What is
+    missing for the full statement is exactly: "the combining pass of a thread that became combiner reaches the
+    thread's own record" (needs the shape of the publication list; with combine pass count 0 it is false, which
+    is why the full statement carries 1 <= npass).  The step correspondence run never produced a "lost" marker
+    (checks/C23.py counts them). *)
+Theorem C23_fc_exactly_once_mutex_partial :
+  forall (chk : bool) (fuel mask npass : nat) (ths : list (list cop)) c,
+    ops_ok cnt_okop ths -> Conc.reach (cnt_init_cfg chk fuel mask npass ths) c ->
+    has_lost (Conc.trace c) = false -> lp_valid CountSpec (cnt_annot (Conc.trace c)).
+Proof. exact fc_exactly_once_partA. Qed.
+Print Assumptions C23_fc_exactly_once_mutex_partial.
+
+(** *** records are not used after they were freed *)
+Definition has_uaf (tr : list (nat * ev)) : bool := existsb (is_ev "uaf") tr.
+
+Definition C23_fc_records_not_used_after_free_statement : Prop :=
+  forall (fuel mask npass : nat) (ths : list (list cop)) c,
+    ops_ok cnt_okop ths -> Conc.reach (cnt_init_cfg true fuel mask npass ths) c ->
+    has_uaf (Conc.trace c) = false.
+
+(** Before commit 5412e9d ([chk = false]: loop 2 of compact_list frees every `removed` record) the statement is
+    FALSE: thread 1 exits between the two loops of thread 0's compact_list; its record is freed while
+    m_pHead->pNext still points at it, and thread 0's next combining pass reads it (corpus/C23, replayed on the
+    real code by checks/C23.py).  As a consequence thread 0's second request is never executed ("lost"). *)
+Definition uaf_witness_sched : list nat :=
+  [0;0;0;0;0;0;0;0;0;0;0;0;0;0;0;0;1;1;1;1;1;1;1;1;1;1;1;1;1;0;0;0;0;0;0;0;0;0;0;0;0;0;0;0;0;0;0;
+   1;1;1;1;1;1;1;1;1;1;1;1;1;1;1;1;1;1;1;1;1;1;1]%nat.
+
+Theorem C23_fc_records_not_used_after_free_refuted_before_fix :
+  exists (ths : list (list cop)) c,
+    ops_ok cnt_okop ths /\ Conc.reach (cnt_init_cfg false 400 0 1 ths) c /\
+    has_uaf (Conc.trace c) = true /\ has_lost (Conc.trace c) = true.
+Proof.
+  exists [[CReq false op_single 0%Z; CReq false op_single 2%Z]; [CReq false op_single 1%Z]].
+  exists (fst (Conc.run 2000 0 uaf_witness_sched
+                 (cnt_init_cfg false 400 0 1 [[CReq false op_single 0%Z; CReq false op_single 2%Z]; [CReq false op_single 1%Z]]))).
+  split; [repeat constructor|]. split; [apply Conc.run_reach|]. vm_compute. split; reflexivity.
+Qed.
+Print Assumptions C23_fc_records_not_used_after_free_refuted_before_fix.
+
+(** the same schedule on the current code ([chk = true]): no access after free, nothing lost, both threads'
+    records handled *)
+Example C23_same_schedule_after_fix :
+  let c := fst (Conc.run 2000 0 uaf_witness_sched
+                 (cnt_init_cfg true 400 0 1 [[CReq false op_single 0%Z; CReq false op_single 2%Z]; [CReq false op_single 1%Z]])) in
+  has_uaf (Conc.trace c) = false /\ has_lost (Conc.trace c) = false /\
+  List.length (filter (is_ev "exec") (Conc.trace c)) = 3%nat.
+Proof. vm_compute. repeat split; reflexivity. Qed.
+
+(** non-vacuity: a run in which thread 0, as combiner, executes the request of thread 1 (helping), a pair of
+    batch requests is completed by one fc_process iteration, and a record of an exited thread is freed *)
+Example C23_nonvacuous :
+  let r := FcKernel.run_case [1; 2; 400]%Z
+             [[[2; 0]]; [[2; 1]]; [[1; 2]; [3]; [1; 3]]]%Z
+             [0;0;0;0;0;0;0;0;0;0;0;0;0; 1;1;1;1;1;1;1;1;1;1;1;1;1;1; 2;2;2;2;2;2;2;2;2;2;2;2;2;2;2;2;2;2;2;2;2;2;2;2;2;2;2;2;2;2;2;2;2;2;2;2;2;2;2;2;2;2;2;2;2;2;2;2;2;2;2;2;2;2;2;2;2;2;2;2;2;2]%nat 4000 in
+  snd r = true /\
+  List.length (filter (is_ev "exec") (fst r)) = 4%nat /\
+  List.length (filter (is_ev "ret") (fst r)) = 4%nat /\
+  has_lost (fst r) = false.
+Proof. vm_compute. repeat split; reflexivity. Qed.
